@@ -103,6 +103,42 @@ func c19NewManager(tree []c19Quota, scaleMin bool) (*GroupQuotaManager, error) {
 	return gqm, nil
 }
 
+// c19Route is the plugin's routing (getPodAssociateQuotaNameAndTreeID): a pod labelled with a quota the scheduler does
+// not know (yet) is handled by the default quota.
+func c19Route(m *GroupQuotaManager, p *corev1.Pod) string {
+	if q := c19Q(p); q != "" && m.GetQuotaInfoByName(q) != nil {
+		return q
+	}
+	return extension.DefaultQuotaName
+}
+
+// c19Holder names the quota whose pod cache holds the pod ("" if none).
+func c19Holder(m *GroupQuotaManager, p *corev1.Pod) string {
+	for _, n := range []string{c19Q(p), extension.DefaultQuotaName} {
+		if qi := m.GetQuotaInfoByName(n); qi != nil && qi.IsPodExist(p) {
+			return n
+		}
+	}
+	return ""
+}
+
+// c19Migrate is plugin.migrateDefaultQuotaGroupsPod (run at the end of plugin New and then every second): every pod
+// parked in the default quota whose own quota exists by now is moved there with MigratePod.
+func c19Migrate(m *GroupQuotaManager) int {
+	cache := m.GetQuotaInfoByName(extension.DefaultQuotaName).GetPodCache()
+	n := 0
+	for _, k := range vk.SortedKeys(cache) {
+		pod := cache[k]
+		q := c19Q(pod)
+		if q == "" || q == extension.DefaultQuotaName || m.GetQuotaInfoByName(q) == nil {
+			continue
+		}
+		m.MigratePod(pod, extension.DefaultQuotaName, q)
+		n++
+	}
+	return n
+}
+
 // ---------------------------------------------------------------- pods
 
 func c19GenPod(t *rapid.T, idx int, leaves []string) *corev1.Pod {
@@ -160,7 +196,7 @@ func c19RLDiff(a, b corev1.ResourceList) string {
 }
 
 func c19Compare(tree []c19Quota, pods []*corev1.Pod, an string, a *GroupQuotaManager, bn string, b *GroupQuotaManager) (string, string) {
-	names := []string{extension.RootQuotaName}
+	names := []string{extension.RootQuotaName, extension.DefaultQuotaName}
 	for _, q := range tree {
 		names = append(names, q.Name)
 	}
@@ -186,12 +222,8 @@ func c19Compare(tree []c19Quota, pods []*corev1.Pod, an string, a *GroupQuotaMan
 		}
 	}
 	for _, p := range pods {
-		qa, qb := a.GetQuotaInfoByName(c19Q(p)), b.GetQuotaInfoByName(c19Q(p))
-		if qa == nil || qb == nil {
-			continue
-		}
-		if qa.IsPodExist(p) != qb.IsPodExist(p) {
-			return "pod-membership-differs", fmt.Sprintf("pod %s known to quota %s in %s: %v, in %s: %v", p.Name, c19Q(p), an, qa.IsPodExist(p), bn, qb.IsPodExist(p))
+		if ha, hb := c19Holder(a, p), c19Holder(b, p); ha != hb {
+			return "pod-membership-differs", fmt.Sprintf("pod %s is held by quota %q in %s and by %q in %s", c19PodStr(p), ha, an, hb, bn)
 		}
 	}
 	return "", ""
@@ -200,8 +232,83 @@ func c19Compare(tree []c19Quota, pods []*corev1.Pod, an string, a *GroupQuotaMan
 // ---------------------------------------------------------------- histories, cut anywhere, replayed
 
 type c19Event struct {
-	Kind string // add | dup-add | update
+	// add | dup-add | update | add-unbound (first seen pending) | bind-update (pending -> bound, follows an add-unbound)
+	Kind string
 	UID  types.UID
+}
+
+func c19Unbound(p *corev1.Pod) *corev1.Pod {
+	n := p.DeepCopy()
+	n.Spec.NodeName = ""
+	n.ResourceVersion = "0"
+	return n
+}
+
+// c19ReplayPods feeds pod events to a manager the way the plugin's pod handlers do (routing by the quotas it knows).
+func c19ReplayPods(m *GroupQuotaManager, objs map[types.UID]*corev1.Pod, evs []c19Event) {
+	for _, ev := range evs {
+		p := objs[ev.UID]
+		switch ev.Kind {
+		case "add", "dup-add":
+			m.OnPodAdd(c19Route(m, p), p.DeepCopy())
+		case "add-unbound":
+			u := c19Unbound(p)
+			m.OnPodAdd(c19Route(m, u), u)
+		case "bind-update":
+			u := c19Unbound(p)
+			m.OnPodUpdate(c19Route(m, p), c19Route(m, u), p.DeepCopy(), u)
+		case "update":
+			n := p.DeepCopy()
+			n.ResourceVersion = "next"
+			m.OnPodUpdate(c19Route(m, n), c19Route(m, p), n, p.DeepCopy())
+		}
+	}
+}
+
+func c19GenPodEvents(t *rapid.T, objs map[types.UID]*corev1.Pod, uids []types.UID) (evs []c19Event, dup, early bool) {
+	if len(uids) == 0 {
+		return nil, false, false
+	}
+	for _, u := range rapid.Permutation(uids).Draw(t, "deliveryOrder") {
+		evs = append(evs, c19Event{"add", u})
+	}
+	for i := rapid.IntRange(0, 3).Draw(t, "extraEvents"); i > 0; i-- {
+		u := rapid.SampledFrom(uids).Draw(t, "extraUID")
+		kind := rapid.SampledFrom([]string{"dup-add", "update"}).Draw(t, "extraKind")
+		first := 0
+		for j, ev := range evs {
+			if ev.UID == u {
+				first = j
+				break
+			}
+		}
+		pos := rapid.IntRange(first+1, len(evs)).Draw(t, "extraPos")
+		evs = append(evs[:pos], append([]c19Event{{kind, u}}, evs[pos:]...)...)
+		dup = true
+	}
+	// a bound pod may have been seen first while it was still pending: Add(pending), then the update to the bound pod
+	for _, u := range uids {
+		if objs[u].Spec.NodeName == "" || rapid.IntRange(0, 3).Draw(t, "seenBeforeBind") != 0 {
+			continue
+		}
+		first, nextOfU := -1, len(evs)
+		for j, ev := range evs {
+			if ev.UID != u {
+				continue
+			}
+			if first < 0 {
+				first = j
+			} else {
+				nextOfU = j
+				break
+			}
+		}
+		evs[first].Kind = "add-unbound"
+		pos := rapid.IntRange(first+1, nextOfU).Draw(t, "bindUpdatePos")
+		evs = append(evs[:pos], append([]c19Event{{"bind-update", u}}, evs[pos:]...)...)
+		early = true
+	}
+	return evs, dup, early
 }
 
 func TestVerifC19QuotaReplay(t *testing.T) {
@@ -212,23 +319,40 @@ func TestVerifC19QuotaReplay(t *testing.T) {
 		defer c.End()
 		tree := c19GenTree(t)
 		scaleMin := rapid.Bool().Draw(t, "scaleMin")
-		live, err := c19NewManager(tree, scaleMin)
-		if err != nil {
-			t.Fatalf("harness: generated quota tree rejected: %v (%+v)", err, tree)
-		}
-		var leaves []string
+		// some quotas are created only later in the history (pods labelled with them exist before: they are parked in
+		// the default quota and moved by the periodic migration once the quota is there); never a parent before its child
+		exists := map[string]bool{}
+		var leaves, lateNames []string
 		parentOf := map[string]string{}
 		for _, q := range tree {
 			parentOf[q.Name] = q.Parent
+			exists[q.Name] = true
 			if !q.IsParent {
 				leaves = append(leaves, q.Name)
+				if rapid.IntRange(0, 2).Draw(t, "createdLater") == 0 {
+					exists[q.Name] = false
+					lateNames = append(lateNames, q.Name)
+				}
 			}
 		}
-		persisted := map[types.UID]*corev1.Pod{} // every pod object the API server holds: pending, bound, finished
+		current := func() []c19Quota {
+			var out []c19Quota
+			for _, q := range tree {
+				if exists[q.Name] {
+					out = append(out, q)
+				}
+			}
+			return out
+		}
+		live, err := c19NewManager(current(), scaleMin)
+		if err != nil {
+			t.Fatalf("harness: generated quota tree rejected: %v (%+v)", err, tree)
+		}
+		persisted := map[types.UID]*corev1.Pod{} // every pod object the (phase-filtered) pod informer would list: pending, bound
 		next := 0
 		var hist []string
 		dead := false
-		sawDup, sawPodFinished, sawPending, sawTwoInQuota, sawChild := false, false, false, false, false
+		sawDup, sawPodFinished, sawPending, sawTwoInQuota, sawChild, sawEarly, sawParked, sawParkedBound, sawMigrated, sawContinuation := false, false, false, false, false, false, false, false, false, false
 		maxBound := 0
 		sawDeleted := false
 
@@ -244,72 +368,98 @@ func TestVerifC19QuotaReplay(t *testing.T) {
 		}
 		bump := func(p *corev1.Pod) { p.ResourceVersion = fmt.Sprint(len(hist) + 2) }
 
-		// the harness' own statement: a quota is charged (used) the requests, over cpu and memory, of the bound,
-		// unfinished pods of its subtree
+		// the harness' own statement: a quota is charged (used) the requests, over cpu and memory, of the bound pods
+		// labelled with a quota of its subtree; bound pods whose quota does not exist are charged to the default quota
 		modelUsed := func() map[string]map[corev1.ResourceName]int64 {
 			m := map[string]map[corev1.ResourceName]int64{}
-			for _, u := range sorted(func(p *corev1.Pod) bool {
-				return p.Spec.NodeName != "" && p.Status.Phase != corev1.PodSucceeded && p.Status.Phase != corev1.PodFailed
-			}) {
+			add := func(q string, p *corev1.Pod) {
+				if m[q] == nil {
+					m[q] = map[corev1.ResourceName]int64{}
+				}
+				for _, n := range []corev1.ResourceName{corev1.ResourceCPU, corev1.ResourceMemory} {
+					r := p.Spec.Containers[0].Resources.Requests[n]
+					m[q][n] += r.MilliValue()
+				}
+			}
+			for _, u := range sorted(func(p *corev1.Pod) bool { return p.Spec.NodeName != "" }) {
 				p := persisted[u]
+				if !exists[c19Q(p)] {
+					add(extension.DefaultQuotaName, p)
+					continue
+				}
 				for q := c19Q(p); q != "" && q != extension.RootQuotaName; q = parentOf[q] {
-					if m[q] == nil {
-						m[q] = map[corev1.ResourceName]int64{}
-					}
-					for _, n := range []corev1.ResourceName{corev1.ResourceCPU, corev1.ResourceMemory} {
-						r := p.Spec.Containers[0].Resources.Requests[n]
-						m[q][n] += r.MilliValue()
-					}
+					add(q, p)
 				}
 			}
 			return m
 		}
-
-		crash := func(t *rapid.T) {
-			uids := sorted(func(*corev1.Pod) bool { return true })
-			var evs []c19Event
-			if len(uids) > 0 {
-				for _, u := range rapid.Permutation(uids).Draw(t, "deliveryOrder") {
-					evs = append(evs, c19Event{"add", u})
-				}
-				for i := rapid.IntRange(0, 3).Draw(t, "extraEvents"); i > 0; i-- {
-					u := rapid.SampledFrom(uids).Draw(t, "extraUID")
-					kind := rapid.SampledFrom([]string{"dup-add", "update"}).Draw(t, "extraKind")
-					first := 0
-					for j, ev := range evs {
-						if ev.UID == u {
-							first = j
-							break
-						}
+		modelCheck := func(m *GroupQuotaManager) string {
+			want := modelUsed()
+			names := []string{extension.DefaultQuotaName}
+			for _, q := range current() {
+				names = append(names, q.Name)
+			}
+			for _, q := range names {
+				got := m.GetQuotaInfoByName(q).GetUsed()
+				for _, n := range []corev1.ResourceName{corev1.ResourceCPU, corev1.ResourceMemory} {
+					g := got[n]
+					if g.MilliValue() != want[q][n] {
+						return fmt.Sprintf("quota %s used %s=%dm, the bound pods charged to it request %dm", q, n, g.MilliValue(), want[q][n])
 					}
-					pos := rapid.IntRange(first+1, len(evs)).Draw(t, "extraPos")
-					evs = append(evs[:pos], append([]c19Event{{kind, u}}, evs[pos:]...)...)
-					sawDup = true
 				}
 			}
-			fresh, err := c19NewManager(tree, scaleMin) // quotas are rebuilt before pod events are delivered (startup hook)
+			return ""
+		}
+		// compare the live manager, a rebuilt one and the model; returns true if the case was abandoned
+		verdict := func(t *rapid.T, where string, fresh *GroupQuotaManager, evs []c19Event) {
+			var pods []*corev1.Pod
+			var objs []string
+			for _, u := range sorted(func(*corev1.Pod) bool { return true }) {
+				pods = append(pods, persisted[u])
+				objs = append(objs, c19PodStr(persisted[u]))
+			}
+			sig, msg := c19Compare(current(), pods, "live", live, "fresh", fresh)
+			full := "quota-replay:" + sig
+			if sig == "" {
+				if d := modelCheck(fresh); d != "" {
+					full, msg = "quota-replay:used-differs", "(live and fresh agree) rebuilt "+d
+				} else {
+					return
+				}
+			} else if sig == "used-differs" && modelCheck(fresh) == "" {
+				full += ":live-differs-from-model"
+			}
+			if c.Violation(t, full, "%s: %s\nquotas: %+v (existing: %v)\nhistory: %s\nreplay events: %v\npersisted: %s", where, msg, tree, exists, strings.Join(hist, "\n  "), evs, strings.Join(objs, " ")) {
+				dead = true
+			}
+		}
+		rebuild := func(t *rapid.T) (*GroupQuotaManager, []c19Event) {
+			uids := sorted(func(*corev1.Pod) bool { return true })
+			evs, dup, early := c19GenPodEvents(t, persisted, uids)
+			sawDup = sawDup || dup
+			sawEarly = sawEarly || early
+			// the quota informer is synced and the managers are rebuilt (ReplaceQuotas hook) before the main informers
+			// start (cmd/koord-scheduler/app/server.go steps 1-3): the quotas that exist are known before any pod event
+			fresh, err := c19NewManager(current(), scaleMin)
 			if err != nil {
 				t.Fatalf("harness: %v", err)
 			}
-			for _, ev := range evs {
-				p := persisted[ev.UID]
-				switch ev.Kind {
-				case "add", "dup-add":
-					fresh.OnPodAdd(c19Q(p), p.DeepCopy())
-				case "update":
-					n := p.DeepCopy()
-					n.ResourceVersion = "next"
-					fresh.OnPodUpdate(c19Q(p), c19Q(p), n, p.DeepCopy())
-				}
+			c19ReplayPods(fresh, persisted, evs)
+			return fresh, evs
+		}
+
+		crash := func(t *rapid.T) {
+			if c19Migrate(live) > 0 { // the migration ticks every second
+				sawMigrated = true
 			}
+			fresh, evs := rebuild(t)
+			c19Migrate(fresh) // plugin New ends with it, and it ticks
 			bound, perQuota := 0, map[string]int{}
-			for _, u := range uids {
-				if persisted[u].Spec.NodeName != "" {
-					bound++
-					perQuota[c19Q(persisted[u])]++
-					if parentOf[c19Q(persisted[u])] != extension.RootQuotaName {
-						sawChild = true
-					}
+			for _, u := range sorted(func(p *corev1.Pod) bool { return p.Spec.NodeName != "" }) {
+				bound++
+				perQuota[c19Q(persisted[u])]++
+				if parentOf[c19Q(persisted[u])] != extension.RootQuotaName {
+					sawChild = true
 				}
 			}
 			for _, n := range perQuota {
@@ -320,53 +470,7 @@ func TestVerifC19QuotaReplay(t *testing.T) {
 			if bound > maxBound {
 				maxBound = bound
 			}
-			var pods []*corev1.Pod
-			for _, u := range uids {
-				pods = append(pods, persisted[u])
-			}
-			sig, msg := c19Compare(tree, pods, "live", live, "fresh", fresh)
-			vsModel := false
-			if sig == "" {
-				vsModel = true
-				want := modelUsed()
-				for _, q := range tree {
-					got := fresh.GetQuotaInfoByName(q.Name).GetUsed()
-					for _, n := range []corev1.ResourceName{corev1.ResourceCPU, corev1.ResourceMemory} {
-						g := got[n]
-						if g.MilliValue() != want[q.Name][n] {
-							sig, msg = "used-differs", fmt.Sprintf("(live and fresh agree) quota %s used %s=%dm, bound unfinished pods of its subtree request %dm", q.Name, n, g.MilliValue(), want[q.Name][n])
-						}
-					}
-				}
-			}
-			if sig == "" {
-				return
-			}
-			full := "quota-replay:" + sig
-			if !vsModel && sig == "used-differs" {
-				// which side disagrees with the bound, unfinished pods?
-				want := modelUsed()
-				freshOK := true
-				for _, q := range tree {
-					got := fresh.GetQuotaInfoByName(q.Name).GetUsed()
-					for _, n := range []corev1.ResourceName{corev1.ResourceCPU, corev1.ResourceMemory} {
-						g := got[n]
-						if g.MilliValue() != want[q.Name][n] {
-							freshOK = false
-						}
-					}
-				}
-				if freshOK {
-					full += ":live-differs-from-model"
-				}
-			}
-			var objs []string
-			for _, p := range pods {
-				objs = append(objs, c19PodStr(p))
-			}
-			if c.Violation(t, full, "%s\nquotas: %+v\nhistory: %s\nreplay events: %v\npersisted: %s", msg, tree, strings.Join(hist, "\n  "), evs, strings.Join(objs, " ")) {
-				dead = true
-			}
+			verdict(t, "crash point", fresh, evs)
 		}
 
 		create := func(t *rapid.T) {
@@ -375,9 +479,12 @@ func TestVerifC19QuotaReplay(t *testing.T) {
 			}
 			p := c19GenPod(t, next, leaves)
 			next++
-			live.OnPodAdd(c19Q(p), p.DeepCopy())
+			live.OnPodAdd(c19Route(live, p), p.DeepCopy())
 			persisted[p.UID] = p
 			sawPending = true
+			if !exists[c19Q(p)] {
+				sawParked = true
+			}
 			hist = append(hist, "create "+c19PodStr(p))
 		}
 		schedule := func(t *rapid.T) {
@@ -390,9 +497,9 @@ func TestVerifC19QuotaReplay(t *testing.T) {
 			}
 			u := rapid.SampledFrom(uids).Draw(t, "uid")
 			p := persisted[u]
-			live.ReservePod(c19Q(p), p.DeepCopy())
+			live.ReservePod(c19Route(live, p), p.DeepCopy())
 			if rapid.IntRange(0, 7).Draw(t, "bindFails") == 0 {
-				live.UnreservePod(c19Q(p), p.DeepCopy())
+				live.UnreservePod(c19Route(live, p), p.DeepCopy())
 				hist = append(hist, fmt.Sprintf("schedule %s: reserved, bind failed, unreserved", p.Name))
 				return
 			}
@@ -401,9 +508,12 @@ func TestVerifC19QuotaReplay(t *testing.T) {
 			bump(b)
 			selfEvent := rapid.Bool().Draw(t, "liveSeesOwnBindEvent")
 			if selfEvent {
-				live.OnPodUpdate(c19Q(b), c19Q(p), b.DeepCopy(), p.DeepCopy())
+				live.OnPodUpdate(c19Route(live, b), c19Route(live, p), b.DeepCopy(), p.DeepCopy())
 			}
 			persisted[u] = b
+			if !exists[c19Q(b)] {
+				sawParkedBound = true
+			}
 			hist = append(hist, fmt.Sprintf("schedule %s: bound selfEvent=%v", p.Name, selfEvent))
 		}
 		t.Repeat(map[string]func(*rapid.T){
@@ -411,6 +521,59 @@ func TestVerifC19QuotaReplay(t *testing.T) {
 			"create2":   create,
 			"schedule":  schedule,
 			"schedule2": schedule,
+			// A quota that pods already refer to is created. Checked as a restart just BEFORE the creation: the restarted
+			// scheduler rebuilds from the pods (parked in the default quota, bound ones through the fail-over branch),
+			// then both schedulers get the quota add event and the migration tick.
+			"createQuota": func(t *rapid.T) {
+				if dead {
+					return
+				}
+				var pending []string
+				for _, n := range lateNames {
+					if !exists[n] {
+						pending = append(pending, n)
+					}
+				}
+				if len(pending) == 0 {
+					t.Skip("no quota left to create")
+				}
+				name := rapid.SampledFrom(pending).Draw(t, "quota")
+				var q c19Quota
+				for _, x := range tree {
+					if x.Name == name {
+						q = x
+					}
+				}
+				c19Migrate(live)
+				fresh, evs := rebuild(t) // restart before the quota exists
+				c19Migrate(fresh)
+				exists[name] = true
+				for _, m := range []*GroupQuotaManager{live, fresh} {
+					if err := m.UpdateQuota(q.object()); err != nil {
+						t.Fatalf("harness: quota %s rejected: %v", name, err)
+					}
+				}
+				hist = append(hist, "create quota "+name)
+				if rapid.IntRange(0, 3).Draw(t, "eventsBeforeMigrationTick") == 0 && len(persisted) > 0 {
+					// pod events can arrive while the pod is still parked although its quota exists now
+					u := rapid.SampledFrom(sorted(func(*corev1.Pod) bool { return true })).Draw(t, "touchedWhileParked")
+					old := persisted[u]
+					n := old.DeepCopy()
+					n.Labels["touched"] = fmt.Sprint(len(hist))
+					bump(n)
+					for _, m := range []*GroupQuotaManager{live, fresh} {
+						m.OnPodUpdate(c19Route(m, n), c19Route(m, old), n.DeepCopy(), old.DeepCopy())
+					}
+					persisted[u] = n
+					hist = append(hist, "touch "+n.Name+" (before the migration tick)")
+				}
+				if c19Migrate(live) > 0 {
+					sawMigrated = true
+				}
+				c19Migrate(fresh)
+				sawContinuation = true
+				verdict(t, "restart right before quota "+name+" was created, then quota add + migration on both", fresh, evs)
+			},
 			"delete": func(t *rapid.T) {
 				if dead {
 					return
@@ -420,7 +583,7 @@ func TestVerifC19QuotaReplay(t *testing.T) {
 					t.Skip("no pod")
 				}
 				u := rapid.SampledFrom(uids).Draw(t, "uid")
-				live.OnPodDelete(c19Q(persisted[u]), persisted[u].DeepCopy())
+				live.OnPodDelete(c19Route(live, persisted[u]), persisted[u].DeepCopy())
 				sawDeleted = true
 				hist = append(hist, "delete "+persisted[u].Name)
 				delete(persisted, u)
@@ -438,7 +601,7 @@ func TestVerifC19QuotaReplay(t *testing.T) {
 				}
 				u := rapid.SampledFrom(uids).Draw(t, "uid")
 				phase := rapid.SampledFrom([]corev1.PodPhase{corev1.PodSucceeded, corev1.PodFailed}).Draw(t, "phase")
-				live.OnPodDelete(c19Q(persisted[u]), persisted[u].DeepCopy())
+				live.OnPodDelete(c19Route(live, persisted[u]), persisted[u].DeepCopy())
 				hist = append(hist, fmt.Sprintf("finish %s (%s): delivered as delete, object leaves the informer", persisted[u].Name, phase))
 				delete(persisted, u)
 				sawPodFinished = true
@@ -456,7 +619,7 @@ func TestVerifC19QuotaReplay(t *testing.T) {
 				n := old.DeepCopy()
 				n.Labels["touched"] = fmt.Sprint(len(hist))
 				bump(n)
-				live.OnPodUpdate(c19Q(n), c19Q(old), n.DeepCopy(), old.DeepCopy())
+				live.OnPodUpdate(c19Route(live, n), c19Route(live, old), n.DeepCopy(), old.DeepCopy())
 				persisted[u] = n
 				hist = append(hist, "touch "+n.Name)
 			},
@@ -473,6 +636,11 @@ func TestVerifC19QuotaReplay(t *testing.T) {
 		c.ClassIf(sawPending, "pending-pod-persisted")
 		c.ClassIf(sawTwoInQuota, "two-bound-pods-in-one-quota")
 		c.ClassIf(sawChild, "bound-pod-in-child-quota")
+		c.ClassIf(sawEarly, "replay:add-pending-then-bind-update")
+		c.ClassIf(sawParked, "pod-created-before-its-quota(parked-in-default)")
+		c.ClassIf(sawParkedBound, "pod-bound-while-parked")
+		c.ClassIf(sawMigrated, "live-migrated-parked-pods")
+		c.ClassIf(sawContinuation, "restart-before-quota-creation+migration")
 		c.ClassIf(maxBound >= 2, "crash-with>=2-bound-pods")
 		c.ClassIf(maxBound == 0, "never-any-bound-pod")
 		if maxBound >= 2 && sawDup && sawTwoInQuota {
